@@ -103,6 +103,13 @@ func loadFixFlags() {
 	for _, k := range vlib.LoadKnown("C20") {
 		status[k.Key] = k.Status
 	}
+	// C20_ASSUME_FIXED=key,key (not used by the registered commands): model these findings as
+	// repaired without editing known_findings.d - for checking a candidate patch in a scratch tree.
+	for _, k := range strings.Split(os.Getenv("C20_ASSUME_FIXED"), ",") {
+		if k != "" {
+			status[k] = "fixed"
+		}
+	}
 	for _, c := range devConst {
 		fixFlag[c] = true
 	}
@@ -433,8 +440,17 @@ func (e *emitted) scenario(id string, rnd *rand.Rand, dup []int) *vlib.Scenario 
 				keys = append(keys, callKey(c.R, c.I))
 			}
 		}
-		for _, k := range keys {
-			s.Order = append(s.Order, "?"+k) // all calls are in flight together
+		// all calls are in flight together - except that the batch calls of ONE type group run one
+		// after the other (a type whose representations select different resolvers, repaired design)
+		typeSeen := map[string]bool{}
+		for i, k := range keys {
+			if c := e.Order[i]; batchRes[c.R] {
+				if typeSeen[resType[c.R]] {
+					continue
+				}
+				typeSeen[resType[c.R]] = true
+			}
+			s.Order = append(s.Order, "?"+k)
 		}
 		for _, k := range keys {
 			s.Order = append(s.Order, k, k+"#ret") // the call has returned before the next one is released
